@@ -3,6 +3,8 @@
 -/
 import SV.TxCache.OrderProofs
 import SV.TxCache.SelOrderProofs
+import SV.TxCache.GreedySpec
+import SV.TxCache.HeapModel
 namespace SV.Props.C03
 open SV SV.TxCache
 
@@ -34,6 +36,22 @@ theorem order_independent (v : Variant) (s : Session) (q : SelParams) (bunches b
 theorem stricter_limits_give_prefix (v : Variant) (hv : v.gasWraps = false) (s : Session) (q' q : SelParams) (hs : Stricter q' q)
     (bunches : List (List Tx)) : (selectFromBunches v s q' bunches).1 <+: (selectFromBunches v s q bunches).1 :=
   selectFromBunches_prefix v hv s q' q hs bunches
+
+/-- the model's selection IS the documented procedure: `greedy` (SV.TxCache.GreedySpec) is written independently in the
+    README's vocabulary — players with a queue and an expectation (first / after n), an explicit argmax over the heads,
+    budget tests, then sender-level hazards (initial gap, middle gap, unaffordable fee: drop the sender), then
+    transaction-level hazards (stale, badly guarded, duplicate nonce: skip one) — and returns the same list and gas -/
+theorem equals_documented_greedy_procedure (v : Variant) (s : Session) (q : SelParams) (bunches : List (List Tx))
+    (hn : (bunches.flatten.map (·.hash)).Nodup) : selectFromBunches v s q bunches = greedy v s q bunches :=
+  selectFromBunches_eq_greedy v s q bunches hn
+
+/-- Go's container/heap is not assumed: a faithful functional model of heap.Init/Push/Pop (binary heap in a slice, sift-up /
+    sift-down transcribed from the Go source) threaded through the same loop returns exactly what the extract-best
+    abstraction returns -/
+theorem container_heap_refines_extract_best (v : Variant) (s : Session) (q : SelParams) (bunches : List (List Tx))
+    (hn : (bunches.flatten.map (·.hash)).Nodup) :
+    Heap.selectFromBunchesHeap v s q bunches = selectFromBunches v s q bunches :=
+  Heap.selectFromBunchesHeap_eq v s q bunches hn
 
 /-- selection is a pure function of (pool, session, limits): `select` returns no pool, the pool is unchanged by
     construction; repeatability is functional extensionality -/
